@@ -12,6 +12,7 @@ import psrun
 import vlib
 
 MODES = ("rolling", "post", "strict")
+VARIANTS = ({"outs_spelling": "solidus"}, {"outs_spelling": "unicode"}, {"unclean_paths": True}, {"link_prev": "TOP/SUB"})
 
 
 def model_check(tier):
@@ -36,6 +37,13 @@ def specs_for(progs, sem, tier, rng):
                 specs.append(psrun.make_spec(p, s, sc, name="%s#%s%d" % (p["name"], mode, k), vdr=mode, files=True,
                                              vdr_jitter=rng.choice([0, 300, 3000]),
                                              phys_paths=(k % 4 == 3)))
+            # stage code that spells its outputs record differently (escaped separators) or
+            # reports non-canonical paths; part of the pipestance living behind a directory link
+            for k, kw in enumerate(VARIANTS):
+                if "link_prev" in kw and p["name"] not in ("vf_sub",):   # (a statically called sub-pipeline)
+                    continue
+                specs.append(psrun.make_spec(p, s, {"kind": "random", "seed": rng.randrange(1 << 30), "penv": rng.choice([0.3, 0.8])},
+                                             name="%s#%sv%d" % (p["name"], mode, k), vdr=mode, files=True, vdr_jitter=300, **kw))
             # a job fails, mrp exits between partial and final cleanup, a fresh runtime
             # re-attaches with the fault removed and completes
             jobs = [j["key"] for j in psprops.expected_jobs(s)]
@@ -142,6 +150,7 @@ ASSUMPTIONS = [
     "removals are observed at the verif hook VdrRemove (before os.RemoveAll, storage lock held) with symlink-resolved paths; measured sizes come from a walk at that moment",
     "kill report accounting: the pipestance-level report's count and size must equal the number and lstat sizes of the directory entries (files and directories; of a per-job temporary directory only its contents) present under each path at the moment mrp removed it - the unit storage.go counts in",
     "behaviours of spec/Vdr.tla from TLC simulation are replayed: the model's program record is rendered as MRO, Start / Finish become job begin / end, AsyncKill releases the cleanup goroutine of that fork from a gate at the VdrBegin hook (AsyncCache has no hook and runs when the goroutine starts); the files left at the end are compared with the model's final disk (differences are model-drift notes)",
+    "variants of every program and mode: stage code writing its outputs record with escaped separators (\\/ and \\u002f), stage code reporting paths with a doubled separator or a /./ component, and the sub-pipeline directory TOP/SUB being a symbolic link to storage outside the pipestance (files behind the link need not be reclaimed - mrp does not clean through links - and must not be touched)",
     "asynchronous cleanup goroutines are delayed by seeded jitter at VdrBegin; every fourth run lives below a symbolic link with stage code reporting fully resolved names",
     "strict mode with an explicit stage-level `volatile = false` is not required to reclaim (weaker reading)",
     "restart runs: one job fails (_errors), mrp exits after some forks have been cleaned partially, a fresh runtime re-attaches with the fault removed; the same guards apply to both incarnations and to the final tree, the accounting is summed over both",
